@@ -2,4 +2,5 @@ pub mod catalog;
 pub mod container;
 pub mod pipeline;
 pub mod queue;
+pub mod reader;
 pub mod crash;
